@@ -3,11 +3,14 @@
   it together with C01/C02/C07).  Also the backbone of C08 and C09.
 
   `assemble_layout`: for every item list, both compression modes, every hook implementation:
-  if assemble() succeeds then there is a final ghost list `Gf` — the output blobs with the label
-  markers still in place — such that the binary is the concatenation of the blobs in order and the
-  label table gives, for every label, exactly the number of bytes emitted before its marker.
+  if assemble() succeeds then the output splits into one run of blobs per SOURCE item, in order
+  (`Img items[i] parts[i]`, Lemmas/Order.lean: what each kind of item may contribute), the binary is
+  the concatenation of the runs, and the label table gives, for every label item, exactly the number
+  of bytes contributed by the items in front of it.  `assemble_layout_ghost` is the same with the
+  label markers still in place in a ghost list `Gf` (`Expands items Gf`).
 -/
 import BB.Lemmas.Final
+import BB.Lemmas.OrderPasses
 namespace BB.Props.C03
 open BB BB.Lemmas
 
@@ -139,12 +142,257 @@ theorem stage_strings {G real : List Item} {labels : Dict} {names : List String}
     | cons a t ih => rw [List.mapM_cons, ih]; rfl
   exact stage_mapM hg st (hm real)
 
-/-- **The label table is exact, and the output is the in-order concatenation of the blobs.** -/
-theorem assemble_layout (H : Hooks) (compress : Bool) (items : List Item) (r : AsmResult)
+/-! ### the ghost walk itself, exposed -/
+
+theorem stage_walk_ex {f : Item → Int → Dict → Except Err (List Item × Int)} (hf : BodyOK f)
+    {G real : List Item} {labels : Dict} {names : List String} (st : Stage G real labels names)
+    {out : List Item} {labels' : Dict} (h : walk f real 0 labels = .ok (out, labels')) :
+    ∃ G', walk f G 0 labels = .ok (G', labels') ∧ Stage G' out labels' names := by
+  obtain ⟨G', hw, hs⟩ := walk_strip hf G st.nonneg 0 labels out labels' (by rw [st.strip_eq]; exact h)
+  obtain ⟨w1, w2, w3, w4, _⟩ := walk_layout hf G 0 labels G' labels' st.nonneg st.nodup st.agree st.low hw
+  refine ⟨G', hw, hs, w4, by rw [w3]; exact st.nodup, by rw [w3]; exact st.names_eq, w1, ?_⟩
+  intro ℓ v hℓ hv
+  rw [w3] at hℓ
+  rw [w2 ℓ hℓ] at hv
+  exact st.low ℓ v hℓ hv
+
+theorem stage_mapM_ex {g : Item → Except Err Item} (hg : StepOK g)
+    {G real : List Item} {labels : Dict} {names : List String} (st : Stage G real labels names)
+    {out : List Item} (h : real.mapM g = .ok out) :
+    ∃ G', G.mapM g = .ok G' ∧ Stage G' out labels names := by
+  obtain ⟨G', hm, hs, hp, hn, hnn⟩ := mapM_ghost hg G out (by rw [st.strip_eq]; exact h)
+  refine ⟨G', hm, hs, hnn st.nonneg, by rw [hn]; exact st.nodup, by rw [hn]; exact st.names_eq, ?_, ?_⟩
+  · intro ℓ v hv; rw [hp] at hv; exact st.agree ℓ v hv
+  · intro ℓ v hℓ hv; rw [hn] at hℓ; exact st.low ℓ v hℓ hv
+
+theorem stage_strings_ex {G real : List Item} {labels : Dict} {names : List String}
+    (st : Stage G real labels names) :
+    Stage (resolveStrings G) (resolveStrings real) labels names := by
+  have hg : StepOK (fun it => (pure (match it with
+      | .string line v => Item.blob line (utf8Bytes v) | other => other) : Except Err Item)) := by
+    constructor
+    · intro l n; rfl
+    · intro it it' hnl h
+      simp only [pure, Except.pure, Except.ok.injEq] at h
+      subst h
+      refine ⟨?_, stringStep_sizeD it⟩
+      cases it <;> first | exact hnl | (intro l n hh; cases hh)
+  have hm : ∀ l : List Item, l.mapM (fun it => (pure (match it with
+      | .string line v => Item.blob line (utf8Bytes v) | other => other) : Except Err Item))
+      = .ok (resolveStrings l) := by
+    intro l
+    unfold resolveStrings
+    induction l with
+    | nil => rfl
+    | cons a t ih => rw [List.mapM_cons, ih]; rfl
+  obtain ⟨G', hG, st'⟩ := stage_mapM_ex hg st (hm real)
+  rw [hm G] at hG
+  cases hG
+  exact st'
+
+/-! ### reading a ghost list as one run per source item -/
+
+theorem blobBytes_cons_blob (line : Line) (d : List Nat) (rest : List Item) :
+    blobBytes (.blob line d :: rest) = d ++ blobBytes rest := rfl
+
+theorem blobBytes_append (a b : List Item) : blobBytes (a ++ b) = blobBytes a ++ blobBytes b := by
+  induction a with
+  | nil => rfl
+  | cons x t ih => cases x <;> simp [blobBytes, ih]
+
+theorem labelNames_app (a b : List Item) : labelNames (a ++ b) = labelNames a ++ labelNames b := by
+  induction a with
+  | nil => rfl
+  | cons x t ih => cases x <;> simp [labelNames, ih]
+
+theorem blobBytes_strip (a : List Item) : blobBytes (strip a) = blobBytes a := by
+  induction a with
+  | nil => rfl
+  | cons x t ih =>
+    cases x <;> simp [strip, Item.isLabel, blobBytes] at ih ⊢ <;> rw [ih]
+
+theorem strip_of_no_names (a : List Item) (h : labelNames a = []) : strip a = a := by
+  induction a with
+  | nil => rfl
+  | cons x t ih =>
+    cases x with
+    | label l n => simp [labelNames] at h
+    | _ =>
+      simp only [labelNames] at h
+      simp only [strip, List.filter_cons, Item.isLabel, Bool.not_false, if_true]
+      exact congrArg _ (ih h)
+
+theorem labelNames_code {x : Item} (h : Item.isData x = true ∨ Item.isInstr x = true) : labelNames [x] = [] := by
+  cases x <;> first | rfl | (rcases h with h | h <;> simp [Item.isData, Item.isInstr] at h)
+
+/-- a label's image is the label itself or nothing; no other item's image contains a label -/
+theorem img_names {it : Item} {repl : List Item} (h : Img it repl) :
+    (∀ line ℓ, it = .label line ℓ → repl = [it] ∨ repl = []) ∧
+    ((∀ line ℓ, it ≠ .label line ℓ) → labelNames repl = []) := by
+  refine ⟨?_, ?_⟩
+  · intro line ℓ e
+    subst e
+    rcases h.special rfl with e | e
+    · exact Or.inl e
+    · exact Or.inr (by simpa [SpecImg] using e)
+  · intro hnl
+    have hcode : ∀ x, Item.isCode x → labelNames [x] = [] := by
+      intro x hx
+      rcases hx with hx | ⟨hx, _⟩
+      · exact labelNames_code (Or.inr hx)
+      · exact labelNames_code (Or.inl hx)
+    cases it with
+    | label line ℓ => exact absurd rfl (hnl line ℓ)
+    | constant line n e =>
+      rcases h.special rfl with e | e
+      · rw [e]; rfl
+      · simp only [SpecImg] at e; rw [e]; rfl
+    | blob line d =>
+      rcases h.special rfl with e | e
+      · rw [e]; rfl
+      · simp [SpecImg] at e
+    | pseudo line n args =>
+      rcases h.special rfl with e | e
+      · rw [e]; rfl
+      · simp only [SpecImg] at e
+        rcases e with ⟨x, rfl, hx⟩ | ⟨x, y, rfl, hx, hy⟩
+        · exact hcode x hx
+        · have := labelNames_app [x] [y]
+          simp only [List.cons_append, List.nil_append] at this
+          rw [this, hcode x hx, hcode y hy]; rfl
+    | align line a =>
+      rcases h.special rfl with e | e
+      · rw [e]; rfl
+      · simp only [SpecImg] at e
+        rcases e with rfl | ⟨n, _, _, rfl⟩ <;> rfl
+    | instr line ins =>
+      obtain ⟨x, rfl, hx⟩ := h.instr rfl
+      exact hcode x hx
+    | includeBytes line pth n =>
+      obtain ⟨x, rfl, hx, _⟩ := h.data rfl
+      exact labelNames_code (Or.inl hx)
+    | string line v =>
+      obtain ⟨x, rfl, hx, _⟩ := h.data rfl
+      exact labelNames_code (Or.inl hx)
+    | sequence line n vs =>
+      obtain ⟨x, rfl, hx, _⟩ := h.data rfl
+      exact labelNames_code (Or.inl hx)
+    | pack line f i =>
+      obtain ⟨x, rfl, hx, _⟩ := h.data rfl
+      exact labelNames_code (Or.inl hx)
+    | shorthandPack line n i =>
+      obtain ⟨x, rfl, hx, _⟩ := h.data rfl
+      exact labelNames_code (Or.inl hx)
+
+theorem expands_names_le {a out : List Item} (h : Expands a out) :
+    (labelNames out).length ≤ (labelNames a).length := by
+  induction h with
+  | nil => exact Nat.le_refl _
+  | @cons it rest repl out hi _ ih =>
+    rw [labelNames_app, List.length_append]
+    have h1 : (labelNames repl).length + (labelNames rest).length ≤ (labelNames (it :: rest)).length := by
+      by_cases hl : ∃ line ℓ, it = .label line ℓ
+      · obtain ⟨line, ℓ, rfl⟩ := hl
+        rcases (img_names hi).1 line ℓ rfl with e | e <;> rw [e] <;> simp [labelNames] <;> omega
+      · have hnl : ∀ line ℓ, it ≠ .label line ℓ := fun line ℓ e => hl ⟨line, ℓ, e⟩
+        rw [(img_names hi).2 hnl]
+        have : labelNames (it :: rest) = labelNames rest := by
+          cases it <;> first | rfl | exact absurd rfl (hnl _ _)
+        rw [this]; simp
+    omega
+
+/-- if no label name is lost, the ghost list splits into one run per source item in which every
+    label is its own run -/
+theorem expands_label_parts {a out : List Item} (h : Expands a out) (hn : labelNames out = labelNames a) :
+    ∃ parts : List (List Item), parts.length = a.length ∧ out = parts.flatten ∧
+      (∀ i (hi : i < a.length) (hp : i < parts.length), Img a[i] parts[i]) ∧
+      (∀ i (hi : i < a.length) (hp : i < parts.length) line ℓ, a[i] = .label line ℓ → parts[i] = [a[i]]) ∧
+      (∀ i (hi : i < a.length) (hp : i < parts.length), (∀ line ℓ, a[i] ≠ .label line ℓ) →
+        labelNames parts[i] = []) := by
+  induction h with
+  | nil => exact ⟨[], rfl, rfl, fun i hi => by simp at hi, fun i hi => by simp at hi, fun i hi => by simp at hi⟩
+  | @cons it rest repl out hi hr ih =>
+    rw [labelNames_app] at hn
+    have hle := expands_names_le hr
+    by_cases hl : ∃ line ℓ, it = .label line ℓ
+    · obtain ⟨line, ℓ, rfl⟩ := hl
+      rcases (img_names hi).1 line ℓ rfl with e | e
+      · subst e
+        simp only [labelNames, List.cons_append, List.nil_append, List.cons.injEq, true_and] at hn
+        obtain ⟨parts, hlen, hout, hall, hlab, hoth⟩ := ih hn
+        refine ⟨[.label line ℓ] :: parts, by simp [hlen], by simp [hout], ?_, ?_, ?_⟩
+        · intro i h1 h2
+          cases i with
+          | zero => exact hi
+          | succ j => exact hall j (by simpa using h1) (by simpa using h2)
+        · intro i h1 h2 l2 n2 e
+          cases i with
+          | zero => rfl
+          | succ j => exact hlab j (by simpa using h1) (by simpa using h2) l2 n2 (by simpa using e)
+        · intro i h1 h2 e
+          cases i with
+          | zero => exact absurd rfl (e line ℓ)
+          | succ j => exact hoth j (by simpa using h1) (by simpa using h2) (by simpa using e)
+      · subst e
+        simp only [labelNames, List.nil_append] at hn
+        rw [hn] at hle
+        simp only [List.length_cons] at hle
+        omega
+    · have hnl : ∀ line ℓ, it ≠ .label line ℓ := fun line ℓ e => hl ⟨line, ℓ, e⟩
+      have e0 := (img_names hi).2 hnl
+      have e1 : labelNames (it :: rest) = labelNames rest := by
+        cases it <;> first | rfl | exact absurd rfl (hnl _ _)
+      rw [e0, e1, List.nil_append] at hn
+      obtain ⟨parts, hlen, hout, hall, hlab, hoth⟩ := ih hn
+      refine ⟨repl :: parts, by simp [hlen], by simp [hout], ?_, ?_, ?_⟩
+      · intro i h1 h2
+        cases i with
+        | zero => exact hi
+        | succ j => exact hall j (by simpa using h1) (by simpa using h2)
+      · intro i h1 h2 l2 n2 e
+        cases i with
+        | zero => exact absurd e (hnl l2 n2)
+        | succ j => exact hlab j (by simpa using h1) (by simpa using h2) l2 n2 (by simpa using e)
+      · intro i h1 h2 e
+        cases i with
+        | zero => exact e0
+        | succ j => exact hoth j (by simpa using h1) (by simpa using h2) (by simpa using e)
+
+theorem bytesBefore_at (A B : List Item) (line : Line) (ℓ : String) (hA : OnlyBlobs A)
+    (hℓ : ℓ ∉ labelNames A) : bytesBefore (A ++ .label line ℓ :: B) ℓ = some (blobBytes A).length := by
+  induction A with
+  | nil => simp [bytesBefore, blobBytes]
+  | cons x t ih =>
+    have ht : OnlyBlobs t := fun y hy => hA y (List.mem_cons_of_mem _ hy)
+    rcases hA x List.mem_cons_self with ⟨l, n, rfl⟩ | ⟨l, d, rfl⟩
+    · simp only [labelNames, List.mem_cons, not_or] at hℓ
+      simp only [List.cons_append, bytesBefore, blobBytes]
+      rw [if_neg (fun e => hℓ.1 e.symm)]
+      exact ih ht hℓ.2
+    · simp only [labelNames] at hℓ
+      simp only [List.cons_append, bytesBefore, blobBytes, List.length_append]
+      rw [ih ht hℓ]; rfl
+
+theorem flatten_split (parts : List (List Item)) (i : Nat) (hp : i < parts.length) :
+    parts.flatten = (parts.take i).flatten ++ parts[i] ++ (parts.drop (i + 1)).flatten := by
+  induction parts generalizing i with
+  | nil => simp at hp
+  | cons a t ih =>
+    cases i with
+    | zero => simp
+    | succ j =>
+      have := ih j (by simpa using hp)
+      simp only [List.flatten_cons, List.take_succ_cons, List.getElem_cons_succ, List.drop_succ_cons]
+      rw [this]; simp [List.append_assoc]
+
+/-- the ghost form: there is a final ghost list `Gf` — the output blobs with the label markers still in
+    place, ONE RUN PER SOURCE ITEM (`Expands items Gf`) — such that the binary is the concatenation of the
+    blobs and the label table gives, for every label, the number of bytes emitted before its marker -/
+theorem assemble_layout_ghost (H : Hooks) (compress : Bool) (items : List Item) (r : AsmResult)
     (hnn : NonNeg items)
     (h : assembleItems H compress items [] [] = .ok r) :
-    ∃ Gf : List Item, OnlyBlobs Gf ∧ labelNames Gf = labelNames items ∧ (labelNames items).Nodup ∧
-      r.bytes = blobBytes Gf ∧
+    ∃ Gf : List Item, Expands items Gf ∧ OnlyBlobs Gf ∧ labelNames Gf = labelNames items ∧
+      (labelNames items).Nodup ∧ r.bytes = blobBytes Gf ∧
       ∀ ℓ ∈ labelNames items, r.labels.get ℓ = (bytesBefore Gf ℓ).map (fun (k : Nat) => Int.ofNat k) := by
   unfold assembleItems at h
   simp only [bind, Except.bind] at h
@@ -155,6 +403,7 @@ theorem assemble_layout (H : Hooks) (compress : Bool) (items : List Item) (r : A
   obtain ⟨items1, constants⟩ := r1
   simp only [h1] at h
   obtain ⟨c1, c2, _⟩ := resolveConstants_spec H items [] items1 constants h1
+  have e0 : Expands items items1 := resolveConstants_expands H items [] items1 constants h1
   -- resolve_labels
   cases h2 : resolveLabels items1 [] with
   | error e => simp [h2] at h
@@ -168,48 +417,53 @@ theorem assemble_layout (H : Hooks) (compress : Bool) (items : List Item) (r : A
     rw [l5 ℓ hℓ] at hv
     simp [Dict.get, List.lookup] at hv
   have st1 := stage_aliases st0 constants
+  have e1 := e0.trans (aliases_expands items1 constants)
   -- transform_compressible (first)
-  have step_c : ∀ {G real labels}, Stage G real labels (labelNames items) →
+  have step_c : ∀ {G real labels}, Stage G real labels (labelNames items) → Expands items G →
       ∀ {o : List Item} {l : Dict},
       maybeCompress H compress real constants labels = .ok (o, l) →
-      ∃ G', Stage G' o l (labelNames items) := by
-    intro G real labels st o l hres
+      ∃ G', Stage G' o l (labelNames items) ∧ Expands items G' := by
+    intro G real labels st eG o l hres
     unfold maybeCompress at hres
     by_cases hc : compress = true
     · rw [if_pos hc] at hres
-      exact stage_walk (compressBody_ok H constants) st hres
+      obtain ⟨G', hw, st'⟩ := stage_walk_ex (compressBody_ok H constants) st hres
+      exact ⟨G', st', eG.trans (walk_expands (compressBody_img H constants) G 0 labels G' l hw)⟩
     · rw [if_neg hc] at hres
       simp only [pure, Except.pure, Except.ok.injEq, Prod.mk.injEq] at hres
       obtain ⟨rfl, rfl⟩ := hres
-      exact ⟨G, st⟩
+      exact ⟨G, st, eG⟩
   cases h3 : maybeCompress H compress (resolveRegisterAliases items2 constants) constants labels2 with
   | error e => simp [h3] at h
   | ok r3 =>
   obtain ⟨items3, labels3⟩ := r3
   simp only [h3] at h
-  obtain ⟨G3, st3⟩ := step_c st1 h3
+  obtain ⟨G3, st3, e3⟩ := step_c st1 e1 h3
   -- transform_pseudo_instructions
   cases h4 : transformPseudo H items3 constants labels3 with
   | error e => simp [h4] at h
   | ok r4 =>
   obtain ⟨items4, labels4⟩ := r4
   simp only [h4] at h
-  obtain ⟨G4, st4⟩ := stage_walk (pseudoBody_ok H constants) st3 h4
+  obtain ⟨G4, hw4, st4⟩ := stage_walk_ex (pseudoBody_ok H constants) st3 h4
+  have e4 := e3.trans (walk_expands (pseudoBody_img H constants) G3 0 labels3 G4 labels4 hw4)
   have st5 := stage_aliases st4 constants
+  have e5 := e4.trans (aliases_expands G4 constants)
   -- transform_compressible (second)
   cases h6 : maybeCompress H compress (resolveRegisterAliases items4 constants) constants labels4 with
   | error e => simp [h6] at h
   | ok r6 =>
   obtain ⟨items6, labels6⟩ := r6
   simp only [h6] at h
-  obtain ⟨G6, st6⟩ := step_c st5 h6
+  obtain ⟨G6, st6, e6⟩ := step_c st5 e5 h6
   -- resolve_aligns
   cases h7 : resolveAligns items6 labels6 with
   | error e => simp [h7] at h
   | ok r7 =>
   obtain ⟨items7, labels7⟩ := r7
   simp only [h7] at h
-  obtain ⟨G7, st7⟩ := stage_walk alignBody_ok st6 h7
+  obtain ⟨G7, hw7, st7⟩ := stage_walk_ex alignBody_ok st6 h7
+  have e7 := e6.trans (walk_expands alignBody_img G6 0 labels6 G7 labels7 hw7)
   -- resolve_immediates
   cases h8 : resolveImmediates H items7 constants labels7 with
   | error e => simp [h8] at h
@@ -226,42 +480,48 @@ theorem assemble_layout (H : Hooks) (compress : Bool) (items : List Item) (r : A
   -- the label table the caller gets is labels7; the immediates walk does not move any label
   have hl8 : l8 = labels7 := walk_zero_labels (immBody_zero H constants) items7 0 labels7 o8 l8 h8w
   subst hl8
-  have st8' : ∃ G8, Stage G8 o8 l8 (labelNames items) := stage_walk (immBody_ok H constants) st7 h8w
-  obtain ⟨G8, st8⟩ := st8'
+  obtain ⟨G8, hw8, st8⟩ := stage_walk_ex (immBody_ok H constants) st7 h8w
+  have e8 := e7.trans (walk_expands (immBody_img H constants) G7 0 l8 G8 l8 hw8)
   -- resolve_instructions … resolve_include_bytes
   cases h9 : resolveInstructions o8 with
   | error e => simp [h9] at h
   | ok items9 =>
   simp only [h9] at h
-  obtain ⟨G9, st9⟩ := stage_mapM instrStep_ok st8 h9
-  obtain ⟨G10, st10⟩ := stage_strings st9
+  obtain ⟨G9, hm9, st9⟩ := stage_mapM_ex instrStep_ok st8 h9
+  have e9 := e8.trans (mapM_expands instrStep_img G8 G9 hm9)
+  have st10 := stage_strings_ex st9
+  have e10 := e9.trans (strings_expands G9)
   cases h11 : resolveSequences (resolveStrings items9) with
   | error e => simp [h11] at h
   | ok items11 =>
   simp only [h11] at h
-  obtain ⟨G11, st11⟩ := stage_mapM seqStep_ok st10 h11
+  obtain ⟨G11, hm11, st11⟩ := stage_mapM_ex seqStep_ok st10 h11
+  have e11 := e10.trans (mapM_expands seqStep_img _ G11 hm11)
   cases h12 : transformShorthandPacks items11 with
   | error e => simp [h12] at h
   | ok items12 =>
   simp only [h12] at h
-  obtain ⟨G12, st12⟩ := stage_mapM shorthandStep_ok st11 h12
+  obtain ⟨G12, hm12, st12⟩ := stage_mapM_ex shorthandStep_ok st11 h12
+  have e12 := e11.trans (mapM_expands shorthandStep_img _ G12 hm12)
   cases h13 : resolvePacks items12 with
   | error e => simp [h13] at h
   | ok items13 =>
   simp only [h13] at h
-  obtain ⟨G13, st13⟩ := stage_mapM packStep_ok st12 h13
+  obtain ⟨G13, hm13, st13⟩ := stage_mapM_ex packStep_ok st12 h13
+  have e13 := e12.trans (mapM_expands packStep_img _ G13 hm13)
   cases h14 : resolveIncludeBytes H items13 with
   | error e => simp [h14] at h
   | ok items14 =>
   simp only [h14] at h
-  obtain ⟨G14, st14⟩ := stage_mapM (includeBytesStep_ok H) st13 h14
+  obtain ⟨G14, hm14, st14⟩ := stage_mapM_ex (includeBytesStep_ok H) st13 h14
+  have e14 := e13.trans (mapM_expands (includeBytesStep_img H) _ G14 hm14)
   cases h15 : resolveBlobs items14 with
   | error e => simp [h15] at h
   | ok bytes =>
   simp only [h15, pure, Except.pure, Except.ok.injEq] at h
   subst h
   obtain ⟨hob, hbytes⟩ := resolveBlobs_ghost G14 bytes (by rw [st14.strip_eq]; exact h15)
-  refine ⟨G14, hob, st14.names_eq, ?_, hbytes, ?_⟩
+  refine ⟨G14, e14, hob, st14.names_eq, ?_, hbytes, ?_⟩
   · rw [← st14.names_eq]; exact st14.nodup
   · intro ℓ hℓ
     rw [← st14.names_eq] at hℓ
@@ -278,5 +538,79 @@ theorem assemble_layout (H : Hooks) (compress : Bool) (items : List Item) (r : A
       | some k =>
         simp only [hb, Option.map_some, Option.some.injEq] at hp ⊢
         omega
+
+/-- **The label table is exact, item by item.**  In every successful assembly the output splits into
+    one run of blobs per SOURCE item, in source order (`parts[i]` is what `items[i]` contributed:
+    `Img items[i] parts[i]` - nothing for a label / constant, one blob of the documented size for a data
+    item, one blob of 2 / 4 bytes for an instruction, one or two such blobs for a pseudo-instruction,
+    fewer than `a` zero bytes for `align a`; `C09.Img.bytes_of_blobs`), the binary is their
+    concatenation, and THE VALUE OF EVERY LABEL IS THE NUMBER OF BYTES CONTRIBUTED BY THE ITEMS IN FRONT
+    OF IT.  (So a result that puts every label at 0 satisfies this only if nothing is emitted before
+    any label.) -/
+theorem assemble_layout (H : Hooks) (compress : Bool) (items : List Item) (r : AsmResult)
+    (hnn : NonNeg items)
+    (h : assembleItems H compress items [] [] = .ok r) :
+    ∃ parts : List (List Item), parts.length = items.length ∧
+      (∀ x ∈ parts.flatten, ∃ line d, x = .blob line d) ∧
+      r.bytes = blobBytes parts.flatten ∧
+      (∀ i (hi : i < items.length) (hp : i < parts.length), Img items[i] parts[i]) ∧
+      (labelNames items).Nodup ∧
+      ∀ i (hi : i < items.length) line ℓ, items[i] = .label line ℓ →
+        r.labels.get ℓ = some ((blobBytes (parts.take i).flatten).length : Int) := by
+  obtain ⟨Gf, hexp, hob, hnames, hnd, hbytes, hlab⟩ := assemble_layout_ghost H compress items r hnn h
+  obtain ⟨gp, glen, gflat, gimg, glabel, gother⟩ := expands_label_parts hexp hnames
+  -- the runs without their markers
+  have hstripflat : ∀ l : List (List Item), (l.map strip).flatten = strip l.flatten := by
+    intro l
+    induction l with
+    | nil => rfl
+    | cons a t ih => simp only [List.map_cons, List.flatten_cons, strip_append, ih]
+  have hmem : ∀ x ∈ strip Gf, ∃ line d, x = .blob line d := by
+    intro x hx
+    simp only [strip, List.mem_filter] at hx
+    rcases hob x hx.1 with ⟨l, n, rfl⟩ | hb
+    · simp [Item.isLabel] at hx
+    · exact hb
+  refine ⟨gp.map strip, by simp [glen], ?_, ?_, ?_, hnd, ?_⟩
+  · rw [hstripflat, ← gflat]; exact hmem
+  · rw [hstripflat, ← gflat, blobBytes_strip]; exact hbytes
+  · intro i hi hp
+    have hp' : i < gp.length := by simpa using hp
+    simp only [List.getElem_map]
+    by_cases hl : ∃ line ℓ, items[i] = .label line ℓ
+    · obtain ⟨line, ℓ, e⟩ := hl
+      rw [glabel i hi hp' line ℓ e, e]
+      exact Img.drop rfl
+    · have hnl : ∀ line ℓ, items[i] ≠ .label line ℓ := fun line ℓ e => hl ⟨line, ℓ, e⟩
+      rw [strip_of_no_names _ (gother i hi hp' hnl)]
+      exact gimg i hi hp'
+  · intro i hi line ℓ e
+    have hp' : i < gp.length := by omega
+    have hmemℓ : ℓ ∈ labelNames items := by
+      have hsplit : items = items.take i ++ items[i] :: items.drop (i + 1) := by
+        rw [List.getElem_cons_drop, List.take_append_drop]
+      rw [hsplit, labelNames_app, e]
+      simp [labelNames]
+    rw [hlab ℓ hmemℓ]
+    have hsplit := flatten_split gp i hp'
+    rw [glabel i hi hp' line ℓ e, e] at hsplit
+    have hGf : Gf = (gp.take i).flatten ++ .label line ℓ :: (gp.drop (i + 1)).flatten := by
+      rw [gflat, hsplit]; simp [List.append_assoc]
+    have hobA : OnlyBlobs (gp.take i).flatten := by
+      intro x hx
+      apply hob x
+      rw [hGf]; exact List.mem_append_left _ hx
+    have hnotin : ℓ ∉ labelNames (gp.take i).flatten := by
+      have hnd' : (labelNames Gf).Nodup := by rw [hnames]; exact hnd
+      rw [hGf, labelNames_app] at hnd'
+      simp only [labelNames] at hnd'
+      intro hin
+      have := (List.nodup_append.mp hnd').2.2 ℓ hin ℓ List.mem_cons_self
+      exact this rfl
+    rw [hGf, bytesBefore_at _ _ line ℓ hobA hnotin]
+    simp only [Option.map_some, Option.some.injEq]
+    have : blobBytes ((gp.map strip).take i).flatten = blobBytes (gp.take i).flatten := by
+      rw [← List.map_take, hstripflat, blobBytes_strip]
+    rw [this]; rfl
 
 end BB.Props.C03
